@@ -450,6 +450,7 @@ void ChainSim::Deliver(int idx, bool force)
     auto res = node->ProcessBlock(B.block, force);
     if (node->Fatal()) ctx.failf("node-fatal-error", "%s", node->notifications->fatal_errors.empty() ? node->notifications->flush_errors[0].c_str() : node->notifications->fatal_errors[0].c_str());
     delivered[idx] = 1;
+    delivery_log.push_back({idx, force, res.accepted, res.verdict.has_value(), res.verdict ? res.verdict->valid : false, res.verdict ? (int)res.verdict->result : -1, res.verdict ? res.verdict->reason : std::string()});
     std::string v = "-";
     if (res.verdict) v = res.verdict->valid ? "valid" : ("invalid:" + res.verdict->reason);
     ctx.evf("deliver #%d force=%d -> accepted=%d new=%d verdict=%s tip=%s h=%d", idx, force, res.accepted, res.new_block, v.c_str(), Hx(node->TipHash()).c_str(), node->Height());
